@@ -184,6 +184,7 @@ pub enum AnyPlanner<K: Kit> {
 }
 
 /// One monitored problem instance (space + goal + checker sharing one event log).
+#[derive(Clone)]
 pub struct Installed<K: Kit> {
     pub problem: Problem,
     pub pd: Arc<Pd<K>>,
@@ -203,6 +204,7 @@ pub struct Drv<K: Kit> {
     pub last_call_v0: u64,
     pub last_call_first_read: Option<u64>,
     pub prm_build_secs: f64,
+    pub pending_sample_budget: Option<u64>,
 }
 
 pub const MS: u64 = 1_000_000;
@@ -228,6 +230,7 @@ impl<K: Kit> Drv<K> {
             last_call_v0: 0,
             last_call_first_read: None,
             prm_build_secs,
+            pending_sample_budget: None,
         })
     }
 
@@ -246,6 +249,13 @@ impl<K: Kit> Drv<K> {
         let checker = Arc::new(MonChecker::<K> { eval: WorldEval::new(&self.kit, &problem.world)?, log: self.log.clone() });
         Ok(Installed { problem: problem.clone(), pd, checker })
     }
+    /// Re-use an existing problem-definition object (same `Arc`, same space `Arc`) with a fresh
+    /// validity checker evaluating `world_of` - what a user does who keeps the problem and
+    /// changes the environment.
+    pub fn reinstall(&self, prev: &Installed<K>, world_of: &Problem) -> Result<Installed<K>, String> {
+        let checker = Arc::new(MonChecker::<K> { eval: WorldEval::new(&self.kit, &world_of.world)?, log: self.log.clone() });
+        Ok(Installed { problem: prev.problem.clone(), pd: prev.pd.clone(), checker })
+    }
 
     fn mark(&self, ev: Ev) {
         self.log.borrow_mut().push(ev);
@@ -258,6 +268,7 @@ impl<K: Kit> Drv<K> {
             l.late_samples = 0;
             l.worst_late_ns = 0;
             l.samples_in_call = 0;
+            l.sample_budget = None;
         }
         self.mark(Ev::Call(name));
     }
@@ -329,6 +340,7 @@ impl<K: Kit> Drv<K> {
     /// solve with a timeout of `timeout_ns` (virtual when `virtual_clock`).
     pub fn solve_ns(&mut self, timeout_ns: u64, virtual_clock: bool) -> Res {
         self.begin_call("solve");
+        self.log.borrow_mut().sample_budget = self.pending_sample_budget.take();
         let reads0 = oxmpl::verif::reads();
         if virtual_clock {
             let now = oxmpl::verif::now_nanos().unwrap_or(0);
@@ -366,6 +378,7 @@ impl<K: Kit> Drv<K> {
             l.tick_valid = 0;
         }
         let t = if n == 0 { 0 } else { n * MS - MS / 2 };
+        self.pending_sample_budget = Some(n + 256);
         self.solve_ns(t, true)
     }
     /// Exactly one iteration.
